@@ -54,11 +54,11 @@ def listener_pipeline(res, tier, clauses, pid):
             if mine:
                 res.violation("listener:" + "+".join(sorted(c.split()[0] for c in mine)), "; ".join(mine) + f" (trace {b['id']})", traces[b["id"]])
     res.assumptions += ["scripted inner listener and connections (no kernel sockets); the wrapped listener's user is the harness's consumer goroutine",
-                        "TLS-terminated fall-through (ConnectionState exposure) is not exercised yet"]
+                        "TLS-terminated fall-through uses the real l4tls matcher and handler (in-process Caddy with a self-signed certificate) and a crypto/tls client over loopback TCP"]
 
 
 def run(res, tier):
-    listener_pipeline(res, tier, ("L1", "L2", "L3", "L4", "L5", "L6", "L7"), "C13")
+    listener_pipeline(res, tier, ("L1", "L2", "L3", "L4", "L5", "L6", "L7", "L8"), "C13")
 
 
 def replay(res, path):
